@@ -27,15 +27,16 @@ from mcv import core
 PROPERTY = 'C18'
 LEVEL = 'exploration'
 
-SEGS = ['..', '.', '', 'sub', 'f.txt', 'g.txt', 'root', 'root_evil', 'rootX', 'secret.txt', 'outside.txt']
+SEGS = ['..', '.', '', 'sub', 'f.txt', 'g.txt', 'root', 'root_evil', 'rootX', 'Root', 'secret.txt', 'outside.txt']
 # absolute spellings of W/root, W/root_evil, W/rootX (only as first segment), with either slash
-ABS_TOKENS = ['@/root', '@/root_evil', '@/rootX', '@\\root', '@\\root_evil', '@\\rootX']
+ABS_TOKENS = ['@/root', '@/root_evil', '@/rootX', '@/Root', '@\\root', '@\\root_evil', '@\\rootX']
 FIRSTS = SEGS + ABS_TOKENS
 
 # how the root reaches the filesystem.  (name, via)
 CONFIGS = ['abs', 'abs_slash', 'pathlike', 'rel', 'rel_dot_slash', 'rel_updown', 'chain_plain', 'chain_sub',
            'chain_sub_slash']
 OPS = ['in', 'getitem', 'open_bin', 'open_str', 'walk']
+OPS_SEQ = OPS + ['in', 'open_bin']     # per (file system, path): every operation, then the first ones again (a repeated request)
 
 INSIDE = {
     'root/f.txt': b'inside-f',
@@ -46,6 +47,7 @@ OUTSIDE = [
     'outside.txt', 'f.txt', 'g.txt', 'sub/g.txt', 'secret.txt',
     'root_evil/secret.txt', 'root_evil/f.txt', 'root_evil/g.txt', 'root_evil/sub/g.txt', 'root_evil/outside.txt',
     'rootX/s.txt', 'rootX/f.txt', 'rootX/g.txt', 'rootX/sub/g.txt', 'rootX/secret.txt',
+    'Root/f.txt', 'Root/g.txt', 'Root/sub/g.txt', 'Root/secret.txt',      # differs from the root in case only (a sibling on POSIX)
     'r/f.txt', 'r/g.txt', 'r/sub/g.txt', 'r/secret.txt', 'r/root/f.txt', 'r/root/sub/g.txt',
 ]
 READ_CAP = 1 << 16
@@ -502,7 +504,7 @@ def shard(spec) -> core.Acc:
                 if prefix not in cand_cache:
                     cand_cache[prefix] = candidates(world, prefix, p)
                 narrow, broad = cand_cache[prefix]
-                for op in OPS:
+                for op in OPS_SEQ:      # one file-system object serves the whole shard: repeated identical requests included
                     check_call(acc, world, cfg, fs, prefix, op, segs, seps, p, narrow, broad)
             check_unify(acc, world, segs, seps, p)
         acc.count('paths', n_paths)
@@ -599,7 +601,10 @@ def replay(case: dict) -> list:
             systems = make_systems(world)
             fs, prefix = systems[case['cfg']]
             narrow, broad = candidates(world, prefix, p)
-            check_call(acc, world, case['cfg'], fs, prefix, case['op'], segs, seps, p, narrow, broad)
+            # the recorded history for one path on one file-system object is the fixed operation sequence
+            for op in OPS_SEQ:
+                check_call(acc, world, case['cfg'], fs, prefix, op, segs, seps, p, narrow, broad)
+            return [f for f in acc.all_failures() if f.case.get('op') == case['op']]
     finally:
         os.chdir(cwd)
         shutil.rmtree(base, ignore_errors=True)
